@@ -7,11 +7,15 @@ import (
 	"bufio"
 	"fmt"
 	"io"
+	"os"
 	"os/exec"
 	"strconv"
 	"strings"
 	"time"
 )
+
+var slowQueryDir = os.Getenv("VERIF_SLOWQ")
+var slowN int
 
 type Solver struct {
 	bin     string
@@ -24,6 +28,10 @@ type Solver struct {
 	pending strings.Builder
 
 	timeoutMs int
+	shortMs   int
+	lastAssump      []*Term
+	lastFallbackSat bool
+	FallbackHits    int
 	Queries   int
 	Unknowns  int
 	Errors    int
@@ -31,7 +39,7 @@ type Solver struct {
 }
 
 func NewSolver(bin string, args []string, timeoutMs int) (*Solver, error) {
-	s := &Solver{bin: bin, args: args, timeoutMs: timeoutMs}
+	s := &Solver{bin: bin, args: args, timeoutMs: timeoutMs, shortMs: 1500}
 	if err := s.start(); err != nil {
 		return nil, err
 	}
@@ -149,10 +157,61 @@ func (s *Solver) readLine() (string, error) {
 // Check decides satisfiability of the asserted constraints plus the assumptions.
 // Returns "sat", "unsat" or "unknown" (which includes errors and timeouts).
 func (s *Solver) Check(assump ...*Term) string {
+	s.lastAssump = assump
+	s.lastFallbackSat = false
+	r := s.checkZ3(s.shortMs, assump)
+	if r != "unknown" {
+		return r
+	}
+	// portfolio: linear 64-bit arithmetic that stalls bit-blasting is often immediate in the integer encoding
+	if r2 := s.cvc5Int(assump); r2 == "sat" || r2 == "unsat" {
+		s.FallbackHits++
+		s.lastFallbackSat = r2 == "sat"
+		return r2
+	}
+	r = s.checkZ3(s.timeoutMs, assump)
+	if r == "unknown" {
+		s.Unknowns++
+	}
+	return r
+}
+
+func (s *Solver) cvc5Int(assump []*Term) string {
+	var sb strings.Builder
+	sb.WriteString("(set-logic ALL)\n")
+	for _, l := range s.script {
+		sb.WriteString(l)
+		sb.WriteString("\n")
+	}
+	for _, a := range assump {
+		fmt.Fprintf(&sb, "(assert %s)\n", a.ref())
+	}
+	sb.WriteString("(check-sat)\n")
+	t0 := time.Now()
+	cmd := exec.Command("cvc5", "--solve-bv-as-int=sum", "--tlimit=20000", "--lang=smt2", "-")
+	cmd.Stdin = strings.NewReader(sb.String())
+	out, _ := cmd.CombinedOutput()
+	s.Time += time.Since(t0)
+	s.Queries++
+	txt := string(out)
+	if strings.Contains(txt, "(error") {
+		return "unknown"
+	}
+	for _, l := range strings.Split(txt, "\n") {
+		l = strings.TrimSpace(l)
+		if l == "sat" || l == "unsat" {
+			return l
+		}
+	}
+	return "unknown"
+}
+
+func (s *Solver) checkZ3(ms int, assump []*Term) string {
 	for _, a := range assump {
 		s.define(a)
 	}
 	var sb strings.Builder
+	fmt.Fprintf(&sb, "(set-option :timeout %d)\n", ms)
 	sb.WriteString("(check-sat-assuming (")
 	for i, a := range assump {
 		if i > 0 {
@@ -179,10 +238,19 @@ func (s *Solver) Check(assump ...*Term) string {
 		}
 		switch {
 		case l == "sat" || l == "unsat":
-			s.Time += time.Since(t0)
+			d := time.Since(t0)
+			s.Time += d
+			if d > 5*time.Second && slowQueryDir != "" {
+				slowN++
+				var sb2 strings.Builder
+				for _, x := range s.script {
+					sb2.WriteString(x + "\n")
+				}
+				sb2.WriteString(sb.String())
+				writeFile(fmt.Sprintf("%s/slow_%d_%d_%s.smt2", slowQueryDir, os.Getpid(), slowN, l), sb2.String())
+			}
 			return l
 		case l == "unknown" || l == "timeout":
-			s.Unknowns++
 			s.Time += time.Since(t0)
 			return "unknown"
 		case strings.HasPrefix(l, "(error"):
@@ -233,6 +301,12 @@ func (s *Solver) restart() {
 
 // Model fetches values for the given variables after a "sat" answer.
 func (s *Solver) Model(vars []*Term) (map[string]uint64, error) {
+	if s.lastFallbackSat {
+		if r := s.checkZ3(s.timeoutMs, s.lastAssump); r != "sat" {
+			return nil, fmt.Errorf("no model: z3 answered %s after cvc5 answered sat", r)
+		}
+		s.lastFallbackSat = false
+	}
 	m := map[string]uint64{}
 	var ask []*Term
 	for _, v := range vars {
@@ -352,6 +426,12 @@ func (s *Solver) Standalone(extra *Term) string {
 func (s *Solver) ValueOf(t *Term, _ []*Term) (uint64, error) {
 	if t.IsConst() {
 		return t.c, nil
+	}
+	if s.lastFallbackSat {
+		if r := s.checkZ3(s.timeoutMs, s.lastAssump); r != "sat" {
+			return 0, fmt.Errorf("no model: z3 answered %s after cvc5 answered sat", r)
+		}
+		s.lastFallbackSat = false
 	}
 	s.define(t)
 	// a definition emitted after the check invalidates nothing in z3, but to be safe re-check is the caller's job
